@@ -1261,7 +1261,7 @@ class Corr:
     def __pow__(self, y):
         if isinstance(y, (Obs, int, float, CObs)):
             newcontent = [None if _check_for_none(self, item) else item**y for item in self.content]
-            return Corr(newcontent, prange=self.prange)
+            return Corr(_nan_to_none(self, newcontent), prange=self.prange)
         else:
             raise TypeError('Type of exponent not supported')
 
@@ -1275,7 +1275,7 @@ class Corr:
 
     def log(self):
         newcontent = [None if _check_for_none(self, item) else np.log(item) for item in self.content]
-        return Corr(newcontent, prange=self.prange)
+        return Corr(_nan_to_none(self, newcontent), prange=self.prange)
 
     def exp(self):
         newcontent = [None if _check_for_none(self, item) else np.exp(item) for item in self.content]
@@ -1454,6 +1454,18 @@ def _sort_vectors(vec_set_in, ts):
             sorted_vec_set.append(vec_set_in[t])
 
     return sorted_vec_set
+
+
+def _nan_to_none(corr, content):
+    """Timeslices whose entries are not a number are undefined."""
+    newcontent = list(content)
+    for t, item in enumerate(newcontent):
+        if _check_for_none(corr, item):
+            continue
+        tmp_sum = np.sum(item)
+        if hasattr(tmp_sum, "value") and np.isnan(tmp_sum.value):
+            newcontent[t] = None
+    return newcontent
 
 
 def _check_for_none(corr, entry):
